@@ -439,6 +439,39 @@ fn soak_world(seed: u64, r: &mut Rng) -> C12World {
     }
 }
 
+/// A streak of calls that all take the bounding-box shortcut, then a boundary case on the same thread (boxes that
+/// merely touch, or overlap by one unit): behaviour "learned" from a run of easy calls.
+fn streak_world(seed: u64, r: &mut Rng) -> C12World {
+    let sq = |x0: f64, y0: f64, x1: f64, y1: f64| -> Operand { vec![vec![vec![[x0, y0], [x1, y0], [x1, y1], [x0, y1], [x0, y0]]]] };
+    let p = sq(0.0, 0.0, 2.0, 2.0);
+    let far = sq(100.0, 0.0, 102.0, 2.0);
+    let touching = match r.below(3) {
+        0 => sq(2.0, 0.0, 4.0, 2.0),
+        1 => sq(0.0, 2.0, 2.0, 4.0),
+        _ => sq(2.0, 2.0, 4.0, 4.0),
+    };
+    let overlapping = sq(1.0, 1.0, 3.0, 3.0);
+    let k = *r.pick(&[7u32, 8, 9, 16, 17, 33, 64, 65, 129, 300]);
+    let op = r.below(4) as u8;
+    let call = |lhs: u32, rhs: u32, op: u8, repeat: u32| Step {
+        retire: false, op, lhs: Src::Pool(lhs), rhs: Src::Pool(rhs), pairing: 0, f32_: false, heap: 0, clone_ops: false, cancel: 0, save: false, repeat,
+    };
+    let mut script = vec![call(0, 1, op, k)];
+    for _ in 0..1 + r.below(3) {
+        script.push(call(0, 2 + r.below(2) as u32, r.below(4) as u8, 1));
+    }
+    C12World {
+        operands: vec![p, far, touching, overlapping],
+        clients: vec![script],
+        yield16: 0,
+        sched_seed: Rng::stream(seed, "schedule").next(),
+        schedule: None,
+        hash_seed: Rng::stream(seed, "hashkeys").next(),
+        heap_seed: Rng::stream(seed, "heap").next(),
+        recorded: Mutex::new(Vec::new()),
+    }
+}
+
 fn src_json(s: Src) -> Value {
     match s {
         Src::Pool(j) => json!(["operand", j]),
@@ -487,6 +520,9 @@ impl World for C12World {
         let mut fr = Rng::stream(seed, "faults");
         if r.chance(1, 600) {
             return soak_world(seed, &mut r);
+        }
+        if r.chance(1, 300) {
+            return streak_world(seed, &mut r);
         }
         let faulty = !fr.chance(1, 5);
         let g = 8 + r.below(6) as i64;
